@@ -9,6 +9,7 @@ P_UNITS = [PUnit("tag-nodes", [BF.TAG_NODES, BF.TAG_NODES_RW], BF.REG),
            PUnit("molecule-selection", [BF.PARSE_GEOMETRY, BF.FINALIZE], BF.REG),
            PUnit("residue-selection", [LG.FIND_NODES], LG.REG),
            PUnit("ligand-attachment", [LG.CONNECT], LG.REG),
+           PUnit("start-residue-selection", [LG.START], LG.REG_S),
            LUnit("split-relabels-once", E.lemma_split_once)]
 
 
